@@ -1352,15 +1352,20 @@ fn utf8_nfa<T: Clone>(mode: UTF8Mode) -> NFA<T> {
         UTF8Mode::Printable => NFA::predicate(|b| (b' '..=b'~').contains(&b)),
         UTF8Mode::NotEscape => NFA::predicate(|b| b >> 7 == 0b0 && b != b'\x1b'),
     };
-    let utf8_two = NFA::predicate(|b| b >> 5 == 0b110);
-    let utf8_three = NFA::predicate(|b| b >> 4 == 0b1110);
-    let utf8_four = NFA::predicate(|b| b >> 3 == 0b11110);
-    let utf8_tail = NFA::predicate(|b| b >> 6 == 0b10);
+    // Well formed sequences only (RFC 3629): no overlong encodings, no surrogates
+    // and nothing above U+10FFFF, `utf8_decode` relies on this.
+    let range = |lo: u8, hi: u8| NFA::predicate(move |b| (lo..=hi).contains(&b));
+    let utf8_tail = range(0x80, 0xbf);
     NFA::choice([
         utf8_one,
-        utf8_two + utf8_tail.clone(),
-        utf8_three + utf8_tail.clone() + utf8_tail.clone(),
-        utf8_four + utf8_tail.clone() + utf8_tail.clone() + utf8_tail,
+        range(0xc2, 0xdf) + utf8_tail.clone(),
+        range(0xe0, 0xe0) + range(0xa0, 0xbf) + utf8_tail.clone(),
+        range(0xe1, 0xec) + utf8_tail.clone() + utf8_tail.clone(),
+        range(0xed, 0xed) + range(0x80, 0x9f) + utf8_tail.clone(),
+        range(0xee, 0xef) + utf8_tail.clone() + utf8_tail.clone(),
+        range(0xf0, 0xf0) + range(0x90, 0xbf) + utf8_tail.clone() + utf8_tail.clone(),
+        range(0xf1, 0xf3) + utf8_tail.clone() + utf8_tail.clone() + utf8_tail.clone(),
+        range(0xf4, 0xf4) + range(0x80, 0x8f) + utf8_tail.clone() + utf8_tail,
     ])
 }
 
